@@ -5,8 +5,10 @@ mod core;
 mod flavour;
 mod l1;
 mod l2;
+mod l4;
 #[cfg(feature = "l3")]
 mod l3;
+mod quarantine;
 mod rng;
 mod val;
 
@@ -30,6 +32,7 @@ fn main() {
             let seed: u64 = arg_val(&args, "--seed").and_then(|s| s.parse().ok()).unwrap_or(1);
             let threads: usize = arg_val(&args, "--threads").and_then(|s| s.parse().ok()).unwrap_or(16);
             let gate = arg_val(&args, "--gate").unwrap_or("C06".into());
+            let first_run: u64 = arg_val(&args, "--first-run").and_then(|s| s.parse().ok()).unwrap_or(0);
             let def = l1::world_by_name(&world).expect("unknown world");
             let mut over = core::Cfg::new();
             for (i, a) in args.iter().enumerate() {
@@ -43,7 +46,7 @@ fn main() {
             let spec = l1::BatchSpec {
                 def,
                 seed,
-                first_run: 0,
+                first_run,
                 runs,
                 gate_prop: &gate,
                 threads,
@@ -129,7 +132,7 @@ fn main() {
                 }
             }
             let t0 = Instant::now();
-            let out = l3::run_batch(def, seed, 0, runs, &gate, threads, &over, false, 5, None);
+            let out = l3::run_batch(def, seed, 0, runs, &gate, threads, &over, false, 5, None, None);
             let dt = t0.elapsed().as_secs_f64();
             println!("scen={} runs={} wall={:.2}s ({:.1} us/run/thread) steps/run={:.1} preemptions/run={:.1} distinct_schedules={} found={} notes={:?}",
                 name, out.runs, dt, dt * 1e6 * threads as f64 / out.runs.max(1) as f64, out.steps as f64 / out.runs.max(1) as f64, out.preemptions as f64 / out.runs.max(1) as f64, out.nontrivial.len(), out.found.len(), out.notes);
@@ -146,6 +149,55 @@ fn main() {
             let threads: usize = arg_val(&args, "--threads").and_then(|s| s.parse().ok()).unwrap_or_else(|| std::thread::available_parallelism().map(|n| n.get()).unwrap_or(4).min(16));
             let root = arg_val(&args, "--root").unwrap_or("/verif".into());
             std::process::exit(check::cmd_check(std::path::Path::new(&root), &prop, &tier, seed, threads));
+        }
+        "miri-threads" => {
+            match l4::thread_scenario() {
+                Ok(()) => println!("thread scenario ok"),
+                Err(e) => {
+                    println!("thread scenario FAILED: {}", e);
+                    std::process::exit(1);
+                }
+            }
+        }
+        "trace" => {
+            // dumps the concrete trace of one L1 run as a replay file on stdout (no oracle needs to fail)
+            let world = arg_val(&args, "--world").unwrap_or("mutex".into());
+            let seed: u64 = arg_val(&args, "--seed").and_then(|s| s.parse().ok()).unwrap_or(1);
+            let run: u64 = arg_val(&args, "--run").and_then(|s| s.parse().ok()).unwrap_or(0);
+            let def = l1::world_by_name(&world).expect("unknown world");
+            let (cfg, mut rng) = l1::draw_run_cfg(def, seed, run, &core::Cfg::new());
+            let mut env = core::Env::new();
+            env.reset();
+            let ops = (def.gen_run)(&cfg, &mut rng, &mut env);
+            let rep = l1::Replay {
+                property: "C01".into(),
+                oracle: "miri".into(),
+                layer: "L1".into(),
+                world: world.clone(),
+                seed,
+                run_index: run,
+                config: cfg,
+                ops_readable: l1::render_ops(def, &ops),
+                ops,
+                message: "undefined behaviour reported by Miri while executing this history".into(),
+                event_log_hash: format!("{:016x}", env.log.get()),
+                minimised_from_ops: 0,
+                runner: "miri".into(),
+                tape: vec![],
+            };
+            println!("{}", serde_json::to_string_pretty(&rep).unwrap());
+        }
+        "selftest" => {
+            let what = args.get(2).cloned().unwrap_or_default();
+            let runs: u64 = arg_val(&args, "--runs").and_then(|s| s.parse().ok()).unwrap_or(3000);
+            let seed: u64 = arg_val(&args, "--seed").or_else(|| std::env::var("VERIF_SEED").ok()).and_then(|s| s.parse().ok()).unwrap_or(1);
+            match what.as_str() {
+                "determinism" => std::process::exit(check::cmd_selftest_determinism(runs, seed)),
+                _ => {
+                    eprintln!("usage: simctl selftest determinism [--runs N]");
+                    std::process::exit(2);
+                }
+            }
         }
         "worker" => {
             let spec = args.get(2).cloned().unwrap_or_default();
